@@ -96,6 +96,9 @@ func (p *Profile) prepare() {
 	}
 }
 
+// DrawKind draws a weighted step kind.
+func (p *Profile) DrawKind(t *rapid.T) string { return p.drawKind(t) }
+
 func (p *Profile) drawKind(t *rapid.T) string {
 	p.prepare()
 	x := uniform2(t, "kind", p.total)
@@ -165,6 +168,12 @@ func (w *World) count(label string) int {
 		return 2
 	}
 	return 3
+}
+
+// Intn and PickString are exported for custom steps owned by monitors.
+func (w *World) Intn(label string, n int) int { return w.intn(label, n) }
+func (w *World) PickString(label string, xs []string) string {
+	return xs[w.intn(label, len(xs))]
 }
 
 func (w *World) offState(label string) bool { return w.chance(label+"?off", w.Profile.InvalidPct) }
